@@ -19,7 +19,10 @@ open HappyModel.C01 HappyModel.C03
 set_option linter.unusedVariables false
 set_option linter.unusedSimpArgs false
 
-variable {σ : Type}
+variable {σ : Type} [Probe σ]
+
+/-- the examples over `Unit` have nothing to watch -/
+instance : Probe Unit := ⟨fun _ _ _ => none⟩
 
 theorem run_add (m : Machine σ) (endT : Option Nat) (a b : Nat) (s : St σ) :
     run m endT a (run m endT b s) = run m endT (b + a) s := by
@@ -283,6 +286,57 @@ theorem breakpoint_pause_cause (m : Machine σ) (endT : Option Nat) (fuel : Nat)
     obtain ⟨h1, h2, _, h4⟩ := breakpoint_first m endT fuel s c pre p post hD hf
     subst h1
     exact ⟨pre, p, hD, h4, hf, h2⟩
+
+/-! ### MetricBreakpoint: zero is a value, only `None` is missing -/
+
+/-- a MetricBreakpoint fires exactly when the watched attribute *has a value* and the value compares
+    as asked — whatever the value: `0` (and `False`, which is `0`) is a value like any other -/
+theorem metric_hit_iff (s : St σ) (last : Ev) (ent attr : Nat) (op : Cmp) (thr2 : Int) (o : Bool) :
+    (Bp.metric ent attr op thr2 o).hit s last = true ↔
+      ∃ v, Probe.read s.ent ent attr = some v ∧ op.holds (2 * v) thr2 = true := by
+  simp only [Bp.hit]
+  cases h : Probe.read s.ent ent attr with
+  | none => simp
+  | some v => simp
+
+/-- at the value 0 the breakpoint is decided by the comparison alone -/
+theorem metric_zero_is_a_value (s : St σ) (last : Ev) (ent attr : Nat) (op : Cmp) (thr2 : Int) (o : Bool)
+    (h0 : Probe.read s.ent ent attr = some 0) :
+    (Bp.metric ent attr op thr2 o).hit s last = op.holds 0 thr2 := by
+  simp [Bp.hit, h0]
+
+/-- a missing entity / attribute (or `None`) never satisfies a MetricBreakpoint -/
+theorem metric_missing_never_fires (s : St σ) (last : Ev) (ent attr : Nat) (op : Cmp) (thr2 : Int) (o : Bool)
+    (h0 : Probe.read s.ent ent attr = none) : (Bp.metric ent attr op thr2 o).hit s last = false := by
+  simp [Bp.hit, h0]
+
+/-- **a MetricBreakpoint pauses right after the first delivery at which the attribute satisfies it**,
+    also when that happens at the value 0: if after some delivery `p` of a call the watched attribute
+    reads `v` with `v op thr` (e.g. `level ≤ 0` at `v = 0`), then `p` is the last delivery of the
+    call, no earlier delivery of the call satisfied any registered breakpoint, and the call returns
+    paused in the state right after `p` -/
+theorem metric_breakpoint_first (m : Machine σ) (endT : Option Nat) (fuel : Nat) (s : St σ) (c : Ctl)
+    (ent attr : Nat) (op : Cmp) (thr2 : Int) (o : Bool) (hb : Bp.metric ent attr op thr2 o ∈ c.bps)
+    (pre : List (St σ × Ev)) (p : St σ × Ev) (post : List (St σ × Ev))
+    (hD : ctlDelivs m endT fuel s c = pre ++ p :: post) (v : Int)
+    (hv : Probe.read p.1.ent ent attr = some v) (hc : op.holds (2 * v) thr2 = true) :
+    post = [] ∧ (∀ q ∈ pre, ¬ fires c.bps q) ∧
+      (ctlLoop m endT fuel s c).2.2 = .paused ∧ (ctlLoop m endT fuel s c).1 = p.1 :=
+  breakpoint_first m endT fuel s c pre p post hD
+    ⟨_, hb, (metric_hit_iff p.1 p.2 ent attr op thr2 o).mpr ⟨v, hv, hc⟩⟩
+
+/-- a tank whose level every event lowers by one; the level is what a breakpoint can watch -/
+instance : Probe Int := ⟨fun l _ _ => some l⟩
+
+-- non-vacuity: level 3, three drain events and a fourth; `level ≤ 0`, `level == 0` and `level < 1`
+-- each pause the run right after the third delivery, at level 0; `level ≥ 7` never does
+example :
+    let mc : Machine Int := { handle := fun l _ _ => { ent := l - 1 } }
+    let s0 : St Int := init 3 0 [⟨1, 0, 0, false, 0, 0⟩, ⟨2, 0, 0, false, 0, 0⟩, ⟨3, 0, 0, false, 0, 0⟩, ⟨4, 0, 0, false, 0, 0⟩]
+    (∀ b ∈ [Bp.metric 0 0 .le 0 false, Bp.metric 0 0 .eq 0 true, Bp.metric 0 0 .lt 2 false],
+      let r := ctlLoop mc (some 10) 100 s0 { bps := [b] }
+      r.2.2 = .paused ∧ r.1.processed = 3 ∧ r.1.ent = 0) ∧
+    (ctlLoop mc (some 10) 100 s0 { bps := [Bp.metric 0 0 .ge 14 false] }).2.2 = .complete := by decide
 
 /-- a one-shot breakpoint disappears only by firing (and a persistent one never): a breakpoint that
     was registered before a call and is not after it is one-shot and fired on the last delivery of
